@@ -53,3 +53,123 @@ def effective_encoding(chain, own, sid):
         if e is not None:
             return e
     return None
+
+
+# ---------------------------------------------------------------- REF_WRITE / REF_READ
+# Independent serializer / section reader written from docs/spec (sections.rst,
+# section-format.rst, encodings.rst).  Works on native values and, under the
+# SX engine, on shadow values (only + / find / startswith / endswith / slicing
+# / encode / decode are used).
+
+NEWLINES = {'unix': '\n', 'dos': '\r\n'}
+_BOMS = {
+    'utf-8-sig': [b'\xef\xbb\xbf'],
+    'utf-16': [b'\xff\xfe', b'\xfe\xff'],
+    'utf-32': [b'\xff\xfe\x00\x00', b'\x00\x00\xfe\xff'],
+}
+
+
+def newline_bytes(kind, encoding):
+    """BOM-free encoding of LF / CRLF in a codec (None: ASCII)"""
+    import codecs
+    enc = encoding or 'ascii'
+    raw = NEWLINES[kind].encode(enc)
+    for bom in _BOMS.get(codecs.lookup(enc).name, []):
+        if raw.startswith(bom):
+            return raw[len(bom):]
+    return raw
+
+
+def scan_lines(data, nl):
+    """left-to-right split after every occurrence of nl (line ends kept)"""
+    out = []
+    p = 0
+    n = len(data)
+    while p < n:
+        i = data.find(nl, p)
+        if i < 0:
+            out.append(data[p:])
+            break
+        out.append(data[p:i + len(nl)])
+        p = i + len(nl)
+    return out
+
+
+def detect_kind(data, unix_nl, dos_nl):
+    """first-line detection: dos iff the first LF ends a CRLF"""
+    i = data.find(unix_nl)
+    if i < 0:
+        return 'unix'
+    j = i + len(unix_nl) - len(dos_nl)
+    if j >= 0 and data[j:i + len(unix_nl)] == dos_nl:
+        return 'dos'
+    return 'unix'
+
+
+def header_bytes(sid, options):
+    items = sorted((k, v) for k, v in options.items() if v is not None)
+    s = '#%s:' % sid
+    if items:
+        s += ' ' + ', '.join('%s=%s' % (k, v) for k, v in items)
+    return s.encode('ascii') + b'\n'
+
+
+def write_text_content(text, encoding, line_endings, indent):
+    """content bytes of a text section and the recorded line_endings"""
+    kind = line_endings or detect_kind(text, '\n', '\r\n')
+    data = text.encode(encoding)
+    nl = newline_bytes(kind, encoding)
+    if not data.endswith(nl):
+        data = data + nl
+    if indent:
+        pad = b' ' * indent
+        out = b''
+        for line in scan_lines(data, nl):
+            out = out + pad + line
+        data = out
+    return data, kind
+
+
+def write_bytes_content(data, encoding, line_endings):
+    kind = line_endings or detect_kind(data, newline_bytes('unix', encoding), newline_bytes('dos', encoding))
+    nl = newline_bytes(kind, encoding)
+    if not data.endswith(nl):
+        data = data + nl
+    return data, kind
+
+
+class Malformed(Exception):
+    pass
+
+
+def read_content(raw, encoding, indent, line_endings, keep_bytes):
+    """specification reading of the exact content bytes of one section.
+    Returns (content, number of lines)."""
+    if line_endings is not None and line_endings not in NEWLINES:
+        raise Malformed('unknown line_endings')
+    kind = line_endings or detect_kind(raw, newline_bytes('unix', encoding), newline_bytes('dos', encoding))
+    nl = newline_bytes(kind, encoding)
+    lines = scan_lines(raw, nl)
+    if indent:
+        stripped = []
+        for line in lines:
+            k = 0
+            while k < indent and k < len(line) and line[k:k + 1] == b' ':
+                k += 1
+            stripped.append(line[k:])
+        data = b''
+        for line in stripped:
+            data = data + line
+    else:
+        data = raw
+    if encoding and not keep_bytes:
+        try:
+            text = data.decode(encoding)
+        except UnicodeDecodeError:
+            raise Malformed('undecodable')
+        if not text.endswith(NEWLINES[kind]):
+            raise Malformed('no trailing newline')
+        return text, len(lines)
+    if not data.endswith(nl):
+        raise Malformed('no trailing newline')
+    return data, len(lines)
